@@ -28,8 +28,45 @@ CORPUS = [
 ]
 
 
+def handler_program(rng):
+    """An interrupt handler that saves/restores registers through a CSR-held pointer, with
+    random chains of stores and reloads."""
+    regs = rng.sample(["s1", "s2", "t1", "t2", "a1", "s3"], 3)
+    csr = rng.choice(["64", "uscratch", "0x40"])
+    L = ["main:", "    la t0, handler", f"    csrrw zero, {rng.choice(['5', 'utvec'])}, t0"]
+    if rng.random() < 0.5:
+        L += ["    li a0, 1", "    li a7, 1", "    ecall"]
+    L += ["    li a7, 10", "    ecall", "handler:", f"    csrrw a0, {csr}, a0"]
+    offs = [0, 4, 8, 12, -4]
+    if rng.random() < 0.6:
+        # dependent chains: save, clobber, restore, save the restored value elsewhere, ...
+        r = rng.choice(regs)
+        ks = rng.sample(offs, rng.randrange(2, 4))
+        L.append(f"    sw {r}, {ks[0]}(a0)")
+        for a, b in zip(ks, ks[1:] + [None]):
+            L.append(f"    li {r}, {rng.choice([77, 99, 5])}")
+            L.append(f"    lw {r}, {a}(a0)")
+            if b is not None:
+                L.append(f"    sw {r}, {b}(a0)")
+    for _ in range(rng.randrange(0, 6)):
+        r = rng.choice(regs)
+        k = rng.random()
+        if k < 0.4:
+            L.append(f"    sw {r}, {rng.choice(offs)}(a0)")
+        elif k < 0.75:
+            L.append(f"    lw {r}, {rng.choice(offs)}(a0)")
+        elif k < 0.9:
+            L.append(f"    li {r}, {rng.choice([0, 77, 99])}")
+        else:
+            L.append(f"    add {r}, {r}, {rng.choice(regs)}")
+    L += [f"    csrrw a0, {csr}, a0", "    uret"]
+    return "\n".join(L) + "\n"
+
+
 def gen_programs(rng, n, sloppy_choices=(0, 0.1, 0.3), multi=0.15):
     out = list(CORPUS)
+    for _ in range(max(4, n // 10)):
+        out.append(handler_program(rng))
     for _ in range(n):
         s, _ = prog.program(rng, sloppy=rng.choice(sloppy_choices), multi_ret=rng.random() < multi)
         out.append(s)
